@@ -248,7 +248,7 @@ func TestP1Repeat(t *testing.T) {
 	rec := ev.New("C17", "repeat")
 	defer rec.Finish(t)
 	rec.Rule(fmt.Sprintf("values built to expose iteration order - fonts with up to 60 glyphs from the C09 generator, metrics with 2-40 glyphs and 0-6 ligatures per glyph plus kerning, CMap files with 2-5 CMaps whose names are adjacent or equal and blocks with duplicate source codes (ties in the sort). History: each writer (4 Type 1 formats, WritePDF with its two lengths, Metrics.Write, both GlyphList methods) is invoked %d times on the same value and every output must be byte-identical to the first; each reader (type1.Read on all four formats, afm.Read, ReadCMap) is invoked repeatedly on the same bytes and must give deep-equal results (for CMaps: same CMap chosen, same tables in the same order). Non-trivial: the value has >= 1 map with >= 2 entries on an output path (>= 2 glyphs, >= 2 ligatures on a glyph, >= 2 CMaps); distinct by value. Go randomises map iteration per range statement: %d repeats of a two-entry map miss an order dependence with probability 2^-%d.", repeats, repeats, repeats-1))
-	ev.SetupRapid(1200, 48000)
+	ev.SetupRapid(3000, 96000)
 	rapid.Check(t, func(t *rapid.T) {
 		switch rapid.IntRange(0, 2).Draw(t, "kind") {
 		case 0:
@@ -588,7 +588,7 @@ func TestP3Reread(t *testing.T) {
 	rec := ev.New("C17", "reread")
 	defer rec.Finish(t)
 	rec.Rule(fmt.Sprintf("fonts laid out by the independent writer (model fonts of the C06 generator with subrs/flex/several accented composites, and fonts whose composites refer to other composites in chains of 2-6 defined in a drawn order - not conforming, but any accepted input must read deterministically) are read %d times from the same bytes; all results must be deep-equal. Non-trivial: font has >= 2 composites; distinct by bytes.", repeats))
-	ev.SetupRapid(900, 32000)
+	ev.SetupRapid(3000, 64000)
 	rapid.Check(t, func(t *rapid.T) {
 		var data []byte
 		multi := false
